@@ -21,7 +21,7 @@ LicValues(p) == {"MIT", "GPL-2.0-or-later WITH Classpath-exception-2.0", "(MIT O
 TextValues(p) == {"2020 Jane Doe", "2019-2021 ACME, Inc. <https://acme.example>", "Eric Poc", "Written in C# by Ann"}
                    \cup (IF Strip(p) # "" THEN {"Eric Po" \o Reverse(Strip(p))} ELSE {})
 ValuesFor(tag, p) == IF tag = "lic" THEN LicValues(p) ELSE TextValues(p)
-Tags == {"lic", "con", "cop", "snip", "word", "wordc"}
+Tags == {"lic", "con", "cop", "snip", "word", "wordc", "sym", "wordsym"}
 
 CaseOf(s, form, frame, tag, v, ex, indent, trail) ==
    LET p == PrefixOf(s, form)
